@@ -19,7 +19,11 @@ import warnings
 from array import array
 from collections.abc import Callable
 from functools import wraps
-from multiprocessing import Array, Process, Queue as mp_Queue, RLock as mp_RLock
+from multiprocessing import Array, Queue as mp_Queue, RLock as mp_RLock
+
+# The base of `multiprocessing.Process` and of the context-specific process classes
+# (e.g `multiprocessing.get_context("spawn").Process`, also used by process pools)
+from multiprocessing.process import BaseProcess as Process
 from operator import floordiv
 from queue import Empty, Queue
 from shutil import get_terminal_size as _get_terminal_size
